@@ -9,6 +9,7 @@ import (
 	"sort"
 	"strings"
 
+	sdkmath "cosmossdk.io/math"
 	sdk "github.com/cosmos/cosmos-sdk/types"
 	authtypes "github.com/cosmos/cosmos-sdk/x/auth/types"
 	banktypes "github.com/cosmos/cosmos-sdk/x/bank/types"
@@ -397,6 +398,7 @@ func (cw *c11World) viewsOf(ctx sdk.Context, a common.Address) []string {
 			panic(err)
 		}
 		total := tr.Total.AmountOf(world.Denom).TruncateInt().BigInt()
+		cw.shapes[c11RewardShape(tr)]++
 		if got, err := num("rewardsOf", a); err != nil {
 			fail("rewardsOf(%s) failed: %v", an, err)
 		} else if got.Cmp(total) != 0 {
@@ -439,6 +441,42 @@ func (cw *c11World) viewsOf(ctx sdk.Context, a common.Address) []string {
 		}
 	}
 	return bad
+}
+
+// c11RewardShape classifies the answer of the native DelegationTotalRewards query (never the precompile's): at how many
+// validators the delegator has a pending reward in the bond denom, what the fractional parts of those per-validator
+// amounts add up to (this decides whether "truncate the total" and "add up truncated parts" are different numbers), and
+// how many denoms the total has. Used for coverage counters only.
+func c11RewardShape(tr *distrtypes.QueryDelegationTotalRewardsResponse) string {
+	n := 0
+	fs := sdkmath.LegacyZeroDec()
+	for _, r := range tr.Rewards {
+		a := r.Reward.AmountOf(world.Denom)
+		if a.IsZero() {
+			continue
+		}
+		n++
+		fs = fs.Add(a.Sub(a.TruncateDec()))
+	}
+	one, two := sdkmath.LegacyOneDec(), sdkmath.LegacyNewDec(2)
+	var f string
+	switch {
+	case n == 0:
+		f = "none"
+	case fs.IsZero():
+		f = "integers"
+	case fs.LT(one):
+		f = "fractions-sum<1"
+	case fs.Equal(one):
+		f = "fractions-sum=1"
+	case fs.LT(two):
+		f = "fractions-sum-in(1,2)"
+	case fs.Equal(two):
+		f = "fractions-sum=2"
+	default:
+		f = "fractions-sum>2"
+	}
+	return fmt.Sprintf("rewards-at-%d-validators/%s/%d-denoms", n, f, len(tr.Total))
 }
 
 // c11CoveredMethods is the ABI surface this check exercises; compared with the ABI json at start-up.
